@@ -26,14 +26,40 @@ def registry(i: int) -> dict:
     raise ValueError(i)
 
 
-def crash_states(old: dict, new: dict):
-    """Run save(old) to completion, then save(new); yield (class, description, files) for every crash point."""
+def crash_states(old: dict, new: dict, first: dict | None = None):
+    """save(old) completes, then save(new); yield (class, description, files, ops) for every crash point of
+    that last save. With `first`: an earlier process left `first` in the file, and ONE Persistence object over
+    one registry dict loads it, saves `old` and then saves `new`, as a running gateway does (state or side
+    files kept between saves would show)."""
+    from aiomysensors.persistence import Persistence
+
     vfs = fsshim.VFS()
-    kind, val, _ = pers.save_nodes(old, vfs)
-    assert kind == "ok", val
+    if first is None:
+        kind, val, _ = pers.save_nodes(old, vfs)
+        assert kind == "ok", val
+        saver = None
+    else:
+        import copy
+
+        # an earlier process left `first` in the file; this process loads it, saves `old`, then saves `new`
+        kind, val, _ = pers.save_nodes(copy.deepcopy(first), vfs)
+        assert kind == "ok", val
+        nodes: dict = {}
+        saver = Persistence(nodes, pers.PATH)
+        kind, val = pers.run(saver.load, vfs)
+        assert kind == "ok", val
+        nodes.clear()
+        nodes.update(copy.deepcopy(old))
+        kind, val = pers.run(saver.save, vfs)
+        assert kind == "ok", val
+        nodes.clear()
+        nodes.update(copy.deepcopy(new))
     base = vfs.snapshot()
     vfs.log.clear()
-    kind, val, _ = pers.save_nodes(new, vfs)
+    if saver is None:
+        kind, val, _ = pers.save_nodes(new, vfs)
+    else:
+        kind, val = pers.run(saver.save, vfs)
     assert kind == "ok", val
     ops = list(vfs.log)
     final = vfs.snapshot()
@@ -58,9 +84,16 @@ def crash_states(old: dict, new: dict):
 
 
 def classify(files: dict, old_c, new_c, empty_c) -> str | None:
-    """None = fine (loads to old or new)."""
+    """None = fine (loads to old or new). The whole crashed file system is handed to the loader
+    (side files such as backups included), as a restarted process would find it."""
     content = files.get(pers.PATH)
-    kind, val, nodes, _ = pers.load_bytes(content)
+    vfs = fsshim.VFS()
+    for pth, data in files.items():
+        vfs.files[pth] = bytearray(data)
+    nodes: dict = {}
+    from aiomysensors.persistence import Persistence
+
+    kind, val = pers.run(Persistence(nodes, pers.PATH).load, vfs)
     if kind == "ok":
         c = canon_nodes(nodes)
         if content is None:
@@ -76,33 +109,38 @@ def classify(files: dict, old_c, new_c, empty_c) -> str | None:
 
 
 def job(j):
-    oi, ni = j
+    oi, ni = j[0], j[1]
+    fi = j[2] if len(j) > 2 else None
     old, new = registry(oi), registry(ni)
+    first = registry(fi) if fi is not None else None
     old_c, new_c, empty_c = canon_nodes(old), canon_nodes(new), canon_nodes({})
     viols = []
     n = 0
     shape = None
     classes = set()
-    for cls, desc, files, ops in crash_states(old, new):
+    for cls, desc, files, ops in crash_states(old, new, first):
         n += 1
         classes.add(cls)
         shape = [(o[0], len(o[3]) if o[0] == "write" else (o[2] if o[0] == "open" else None)) for o in ops]
         res = classify(files, old_c, new_c, empty_c)
         if res is not None:
-            viols.append((f"C15|{cls}|{res}", f"old registry #{oi}, new registry #{ni}: crash {desc}: the file {res.replace('-', ' ')}", {"old": oi, "new": ni}))
+            hist = f"file held registry #{fi} when the session started (loaded), then " if fi is not None else ""
+            viols.append((f"C15|{cls}|{res}", f"{hist}old registry #{oi}, new registry #{ni}: crash {desc}: the file {res.replace('-', ' ')}", {"old": oi, "new": ni, "first": fi}))
     return n, viols, shape, sorted(classes)
 
 
 def run(ctx: core.Ctx) -> core.Report:
     regs = [0, 1, 3] if ctx.quick else [0, 1, 2, 3, 4]
     jobs = [(o, n) for o in regs for n in regs]
+    # histories: one Persistence object saves three registries in a row (first, old, new)
+    jobs += [(o, n, f) for f in regs for o in regs for n in regs if not (f == o == n)]
     res = core.pmap(job, jobs, ctx.workers, chunksize=1)
     total = sum(r[0] for r in res)
     viols = [core.Violation(k, w, rep) for r in res for k, w, rep in r[1]]
     cov = {
         "evaluations": total,
         "distinct_nontrivial": total - len(jobs),
-        "rule": "for every ordered pair (old, new) of registries: save(old) completes, then save(new) runs on the in-memory file system; crash states = the file system after every prefix of the raw operation log that CPython's real TextIOWrapper/BufferedWriter stack produced, and inside every raw write after every byte (large writes: first/last 64 bytes + every 97th); each state is loaded by the real Persistence.load; non-trivial = any state other than 'before the first operation'",
+        "rule": "for every ordered pair (old, new) of registries, and for every triple (first, old, new) saved in a row by ONE Persistence object: the earlier saves complete, then save(new) runs on the in-memory file system; crash states = the file system after every prefix of the raw operation log that CPython's real TextIOWrapper/BufferedWriter stack produced, and inside every raw write after every byte (large writes: first/last 64 bytes + every 97th); each state is loaded by the real Persistence.load; non-trivial = any state other than 'before the first operation'",
         "exhaustive": True,
         "bounds": {"registries": regs, "pairs": len(jobs)},
         "raw_operation_shape_of_a_save": res[-1][2],
@@ -121,5 +159,5 @@ def run(ctx: core.Ctx) -> core.Report:
 
 
 def replay(data: dict) -> dict:
-    n, viols, shape, _ = job((data["old"], data["new"]))
+    n, viols, shape, _ = job((data["old"], data["new"]) if data.get("first") is None else (data["old"], data["new"], data["first"]))
     return {"violated": bool(viols), "violations": sorted({k for k, _, _ in viols}), "ops": shape}
